@@ -99,6 +99,30 @@ func build(v *variant) {
 	fmt.Fprintf(os.Stderr, "[vdriver] built %s worker in %.1fs\n", v.name, time.Since(t0).Seconds())
 }
 
+// buildCLI builds cmd/wazero of the repository under check (for classes that drive the command-line tool)
+// and publishes its path to the workers through VERIF_WAZERO_CLI.
+func buildCLI() {
+	t0 := time.Now()
+	out := filepath.Join(scratch, "wazero-cli")
+	cmd := exec.Command("go", "build", "-buildvcs=false", "-o", out, "./cmd/wazero")
+	cmd.Dir = repoDir
+	cmd.Env = goEnv()
+	if outb, err := cmd.CombinedOutput(); err != nil {
+		fatal2("building cmd/wazero failed: %v\n%s", err, outb)
+	}
+	os.Setenv("VERIF_WAZERO_CLI", out)
+	fmt.Fprintf(os.Stderr, "[vdriver] built cmd/wazero in %.1fs\n", time.Since(t0).Seconds())
+}
+
+func buildCLIIfNeeded(classes []sim.Class) {
+	for _, c := range classes {
+		if c.NeedsCLI {
+			buildCLI()
+			return
+		}
+	}
+}
+
 func writeModfile(path, wazeroDir string) {
 	src, err := os.ReadFile(filepath.Join(verifDir, "harness", "go.mod"))
 	if err != nil {
@@ -496,6 +520,7 @@ func check(prop, tier string, seed uint64, procs int, scale float64, onlyClass s
 	v0 := staticVariant(prop)
 	build(v0)
 	classes, desc := getClasses(v0, prop)
+	buildCLIIfNeeded(classes)
 	vs := variantsFor(classes)
 	for n, v := range vs {
 		if n == v0.name {
@@ -840,6 +865,7 @@ func replay(file string) int {
 	v0 := staticVariant(rp.Property)
 	build(v0)
 	classes, _ := getClasses(v0, rp.Property)
+	buildCLIIfNeeded(classes)
 	var cls sim.Class
 	for _, c := range classes {
 		if c.Name == rp.Class && c.Engine == rp.Engine {
@@ -905,6 +931,7 @@ func selftest(prop, tier string, seed uint64) int {
 	v0 := staticVariant(prop)
 	build(v0)
 	classes, _ := getClasses(v0, prop)
+	buildCLIIfNeeded(classes)
 	vs := variantsFor(classes)
 	for n, v := range vs {
 		if n == v0.name {
